@@ -8,21 +8,24 @@ def classify(case):
 SPEC = dict(
     prop="C08",
     gens=[dict(name="NoticeTypes", cmd=["go", "run", "-C", "translators", ".", "noticetypes"],
-               what="notice types accepted by NoticeType.Valid, maxNoticeKeyLength, and every non-test place that sets AddNoticeOptions.Time")],
+               what="notice types accepted by NoticeType.Valid, maxNoticeKeyLength, which notice fields State.MarshalJSON writes and State.UnmarshalJSON restores (notices, lastNoticeId, lastNoticeTimestamp), and every non-test place that sets AddNoticeOptions.Time")],
     drivers=[
         dict(name="state", kind="main", pkg="./zzverif/c08",
-             n=dict(quick=300, thorough=12000),
+             n=dict(quick=150, thorough=12000),
              ev=dict(requires=["V.lib.Bytes", "V.models.Notices"], case_type="Notices.case",
                      mismatch="Notices.mismatch", monitor="Notices.monitor_fail")),
         dict(name="api", kind="test", pkg="./daemon", run="TestVerifC08Api",
-             n=dict(quick=250, thorough=8000),
+             n=dict(quick=120, thorough=8000),
              ev=dict(requires=["V.lib.Bytes", "V.models.Notices"], case_type="Notices.acase",
                      mismatch="Notices.amismatch", monitor="Notices.amonitor_fail")),
     ],
     classify=classify,
     rule=("state: histories driven through the real state.State (AddNotice with state.MockTime readings, Notices): ALL "
           "histories of length <= 3 (thorough: <= 5) over {add a same tick, add a clock -5 repeat-after 3, add b (other user) "
-          "+2, add a +1 repeat-after 10, poll client 0, poll client 1}; plus random histories of 3-30 operations: 1-4 "
+          "+2, add a +1 repeat-after 10, poll client 0, poll client 1, RESTART (last checkpoint payload -> state.ReadState, clients keep "
+          "their cursors)}; three scripted restart histories (same-tick additions, poll, restart, additions at the same / an earlier "
+          "/ a later clock reading, double restart); plus random histories of 3-30 operations (1 in 7 a restart, half of them with "
+          "the clock not advancing or stepping back across it): 1-4 "
           "(user, type, key) combinations so notices reoccur, clock steps same tick / backwards / small / large in ns or ms, "
           "repeat-after 0 / inside / outside the window / negative, 4% malformed adds (invalid type, empty or 256-258 byte key, "
           "refresh-inhibit with key != -), 1 in 15 histories with explicit AddNoticeOptions.Time (compared with the model only), "
@@ -50,6 +53,6 @@ SPEC = dict(
         "notice expiry (7 days after last-occurred, evaluated against the real wall clock in flattenNotices/Prune) is not modelled; drivers keep every mocked instant within hours of now",
         "a client starts without a cursor and only ever uses a last-repeated time it received as After",
         "getNotices is modelled for requests on the main snapd socket (every notice type viewable); the snap-socket interface/type restrictions (sanitizeNoticeTypesFilter with interfaces, noticeTypesViewableBySnap) belong to C26 and are not modelled; the timeout/WaitNotices branch is not exercised",
-        "state persistence of lastNoticeTimestamp across restarts (marshalledState) is not covered here (C05)",
+        "restarts are modelled as reload(persist st) over the three notice fields of marshalledState, with the written/restored flags read from State.MarshalJSON / UnmarshalJSON by the translator (text shape after renaming receiver and local variable); encoding/json itself and expiry on reload (unflattenNotices) are not modelled; the driver restarts through the backend's last Checkpoint payload and state.ReadState",
     ],
 )
